@@ -90,7 +90,7 @@ def gen_series(r, tier='quick', **force):
                             'holes': (None if a[s][t][v] == 0 else a[s][t][v])}[pat]
                     tab[k][(s, t, v)] = code
     normal = np.cross(rowc, colc)
-    acq_pat = force.get('acq', r.choice(['asc', 'desc', 'interleaved', 'irregular', 'equal', 'inconsistent', 'none']))
+    acq_pat = force.get('acq', r.choice(['asc', 'desc', 'interleaved', 'irregular', 'equal', 'inconsistent', 'none', 'partial']))
     tr_pat = r.choice(['same', 'same', 'vary', 'none'])
     if ordering in ('guess_vol', 'guess_file', 'none') and tr_pat == 'vary':
         tr_pat = 'same'
@@ -98,7 +98,11 @@ def gen_series(r, tier='quick', **force):
     slice_t = {'asc': list(range(S)), 'desc': list(range(S - 1, -1, -1)),
                'interleaved': [(i // 2 if i % 2 == 0 else (S + 1) // 2 + i // 2) for i in range(S)],
                'irregular': [r.randint(0, 5) for _ in range(S)], 'equal': [0] * S,
-               'inconsistent': list(range(S)), 'none': None}[acq_pat]
+               'inconsistent': list(range(S)), 'none': None, 'partial': list(range(S))}[acq_pat]
+    # gantry tilt: successive slices are displaced in-plane as well as along the normal
+    shear = force.get('shear', r.choice([[0.0, 0.0]] * 5 + [[r.choice([0.5, -0.75, 1.0]), r.choice([0.0, 0.25, -1.5])]]))
+    # slice thickness / spacing as written in the headers (may disagree with the positions, may be negative)
+    hdr = force.get('hdr', r.choice(['none', 'none', 'thickness', 'spacing', 'spacing_neg', 'spacing_other']))
     fid = 0
     for v in range(V):
         for t in range(T):
@@ -108,6 +112,16 @@ def gen_series(r, tier='quick', **force):
                     val = value_for(k, tab[k][(s, t, v)])
                     if val is not None:
                         meta[k] = val
+                if hdr == 'thickness':
+                    meta['SliceThickness'] = abs(gap) * 0.8
+                elif hdr == 'spacing':
+                    meta['SliceThickness'] = abs(gap)
+                    meta['SpacingBetweenSlices'] = abs(gap)
+                elif hdr == 'spacing_neg':
+                    meta['SpacingBetweenSlices'] = -abs(gap)
+                elif hdr == 'spacing_other':
+                    meta['SliceThickness'] = 1.25
+                    meta['SpacingBetweenSlices'] = 7.0
                 if ordering in ('explicit', 'explicit_tv', 'guess_vol'):
                     meta['EchoTime'] = 10.0 + 5.0 * t
                 if ordering == 'explicit_tv':
@@ -129,13 +143,17 @@ def gen_series(r, tier='quick', **force):
                     meta['InPlanePhaseEncodingDirection'] = pe
                 elif pe == 'vary':
                     meta['InPlanePhaseEncodingDirection'] = 'ROW' if (s + t + v) % 2 == 0 else 'COL'
-                ipp = [origin[i] + normal[i] * gap * s for i in range(3)]
+                ipp = [origin[i] + normal[i] * gap * s + (rowc[i] * shear[0] + colc[i] * shear[1]) * s for i in range(3)]
                 files.append({'id': fid, 's': s, 't': t, 'v': v, 'ipp': ipp, 'meta': meta,
                               'base': 100 * fid})
                 fid += 1
+    if acq_pat == 'partial' and len(files) > 1:
+        # only some of the files say when they were acquired
+        for f in r.sample(files, r.randint(1, len(files) - 1)):
+            f['meta'].pop('AcquisitionTime', None)
     return {'op': 'stack', 'S': S, 'T': T, 'V': V, 'orient': oname, 'iop': list(map(float, rowc)) + list(map(float, colc)),
             'rows': rows, 'cols': cols, 'spacing': spacing, 'gap': gap, 'origin': origin,
-            'ordering': ordering, 'files': files, 'patterns': patterns, 'acq': acq_pat, 'tr': tr_pat, 'pe': pe,
+            'ordering': ordering, 'files': files, 'patterns': patterns, 'acq': acq_pat, 'tr': tr_pat, 'pe': pe, 'shear': shear, 'hdr': hdr,
             'bits_stored': r.choice([16, 16, 12]), 'signed': r.random() < 0.2}
 
 
